@@ -43,10 +43,12 @@ type boxStats struct {
 
 type found struct {
 	box  *Box
+	bud  *Budget // budgets the path runs under (the box's, or relaxed ones for a completion suffix)
 	path []Event
 	kind string
 	det  string
 	fn   string
+	note string
 }
 
 type coord struct {
@@ -108,13 +110,17 @@ func (co *coord) noteViol(box *Box, v workerViol) {
 	cmd := evNames[v.Path[len(v.Path)-1].K]
 	k := box.ID + "|" + v.Kind + "|" + cmd
 	f, ok := co.found[k]
+	bud := &box.Bud
+	if v.Bud != nil {
+		bud = v.Bud
+	}
 	if !ok {
-		co.found[k] = &found{box: box, path: v.Path, kind: v.Kind, det: v.Detail, fn: v.Func}
+		co.found[k] = &found{box: box, bud: bud, path: v.Path, kind: v.Kind, det: v.Detail, fn: v.Func, note: v.Note}
 		co.order = append(co.order, k)
 		return
 	}
 	if lessPath(v.Path, f.path) {
-		f.path, f.det, f.fn = v.Path, v.Detail, v.Func
+		f.path, f.det, f.fn, f.bud, f.note = v.Path, v.Detail, v.Func, bud, v.Note
 	}
 }
 
@@ -185,6 +191,7 @@ func (co *coord) runBox(bi int, deadline time.Time) *boxStats {
 		st.Sim.Thaws += ss.Thaws
 		st.Sim.ThawFeeds += ss.ThawFeeds
 		st.Sim.Validated += ss.Validated
+		st.Sim.Lookahead += ss.Lookahead
 		for _, v := range viols {
 			co.noteViol(box, v)
 			st.Poisoned++
@@ -465,7 +472,7 @@ func run(prop string) int {
 			continue
 		}
 		co.rep.Add(&ev.Violation{Engine: "raftmc", Kind: f.kind, Cmd: evNames[f.path[len(f.path)-1].K], Shape: shapeOf(f.path), Func: f.fn,
-			Detail: fmt.Sprintf("box %s (%s), %d events: %s", f.box.ID, f.box.Cfg.Name, len(f.path), f.det),
+			Detail: strings.TrimSpace(fmt.Sprintf("box %s (%s), %d events: %s %s", f.box.ID, f.box.Cfg.Name, len(f.path), f.det, f.note)),
 			Replay: mkReplay(f, lines)})
 	}
 
